@@ -140,6 +140,11 @@ def make_stream(rng, case, rows, mode):
         pos = rng.choice([0, ncorners - 1, rng.randrange(ncorners)])
         excess = rng.choice([0, 0, 1, 2] + [b - n for b in big])
         flat[pos * nind + off] = n + excess
+        if n > 0 and rng.random() < 0.3:
+            # far out of range, yet congruent to a valid position modulo 2^8 / 2^16 (/ 2^32)
+            k_in = rng.randrange(n)
+            wraps = [256 + k_in, 2 * 256 + k_in, 65536 + k_in]
+            flat[pos * nind + off] = rng.choice(wraps)
         if via == 'create' and case.get('dtype') in ('int64', 'uint32') and rng.random() < 0.4:
             # beyond 32 bits (and values that would wrap to something small or negative if narrowed)
             wide = [2 ** 31 + 1, 2 ** 32 - 1] if case['dtype'] == 'uint32' else \
@@ -222,6 +227,16 @@ def gen_case(rng, max_rows=4, rows=None, modes=(50, 30, 8, 9, 3), clean=False, m
             if kind != 'line':
                 rows = 0
     case.update(make_stream(rng, case, rows, mode))
+    if via == 'create':
+        case['saves'] = rng.choice([0, 0, 1, 2, 2, 3])
+        if kind == 'polygons' and rng.random() < 0.6:
+            ladder = [('uint8', 0, 255), ('int8', 0, 127), ('uint16', 0, 65535), ('int16', 0, 32767),
+                      ('int32', 0, 2 ** 31 - 1), ('int64', 0, 2 ** 63 - 1)]
+            pd = []
+            for j, poly in enumerate(case['polys']):
+                fits = [d for d, lo, hi in ladder if (max(poly) if poly else 0) <= hi]
+                pd.append(fits[0] if (j == 0 and rng.random() < 0.6) else rng.choice(fits))
+            case['pdtypes'] = pd
     if via == 'create' and mode != 'novertex' and rng.random() < 0.3:
         # earlier constructions on the same geometry, sources and InputList (outcome irrelevant):
         # state must not leak from one construction into the next
@@ -314,8 +329,8 @@ def multiset_cases():
             nc = WANT[sem]
             for share, lens in (('same', (3, 3)), ('eq', (3, 3)), ('first-longer', (5, 2)), ('second-longer', (2, 5))):
                 for sets in (['0', '0', '1'], ['0', '1', '0'], None):
-                    for badset in (0, 1):
-                        for pos in ('first', 'last'):
+                    for badset, pos in ((0, 'first'), (0, 'last'), (1, 'first'), (1, 'last'), (None, 'first')):
+                        if True:
                             srcs = [[4, 3], [lens[0], nc]] + ([] if share == 'same' else [[lens[1], nc]])
                             s2 = 1 if share == 'same' else 2
                             inputs = [[0, 'VERTEX', ['src', 0]], [1, sem, ['src', 1]], [2, sem, ['src', s2]]]
@@ -324,9 +339,11 @@ def multiset_cases():
                             for c in range(ncorn):
                                 flat += [c % 4, c % lens[0], c % (lens[0] if share == 'same' else lens[1])]
                             c = 0 if pos == 'first' else ncorn - 1
-                            n_bad = lens[0] if (badset == 0 or share == 'same') else lens[1]
-                            flat[3 * c + 1 + badset] = n_bad          # out of range by exactly one
-                            case = {'kind': kind, 'via': 'create' if (badset + (pos == 'last')) % 2 == 0 else 'xml',
+                            n_bad = lens[0] if (badset in (0, None) or share == 'same') else lens[1]
+                            if badset is not None:
+                                flat[3 * c + 1 + badset] = n_bad      # out of range by exactly one
+                            # (badset None: every column uses the full range of its OWN source and nothing else)
+                            case = {'kind': kind, 'via': 'create' if ((badset or 0) + (pos == 'last')) % 2 == 0 else 'xml',
                                     'srcs': srcs, 'inputs': inputs, 'material': None, 'mode': 'multiset',
                                     'dtype': 'int32', 'vcform': 'array'}
                             if sets is not None:
@@ -534,7 +551,7 @@ def run(ctx):
     dist = {'by_kind': {}, 'by_via': {}, 'by_mode': {}, 'accepted': 0, 'rejected_by_code': {},
             'judged_bad': {}, 'inputs_histogram': {}, 'zero_rows': 0, 'corpus_cases': ncorpus,
             'with_prelude_constructions': 0, 'with_param_name_forms': 0, 'index_dtypes': {},
-            'with_source_data_forms': 0, 'vcounts_forms': {},
+            'with_source_data_forms': 0, 'vcounts_forms': {}, 'saved_before_construction': 0, 'mixed_polygon_dtypes': 0,
             'exhaustive_slice_cases': nexh, 'systematic_source_and_polygon_remainder_cases': len(systematic)}
     for c, r in zip(cases, results):
         dist['by_kind'][c['kind']] = dist['by_kind'].get(c['kind'], 0) + 1
@@ -552,6 +569,8 @@ def run(ctx):
             dist['with_prelude_constructions'] += 1 if c.get('prelude') else 0
             dist['with_param_name_forms'] += 1 if c.get('pnames') else 0
             dist['with_source_data_forms'] += 1 if c.get('dforms') else 0
+            dist['saved_before_construction'] += 1 if c.get('saves') else 0
+            dist['mixed_polygon_dtypes'] += 1 if c.get('pdtypes') and len(set(c['pdtypes'])) > 1 else 0
             if c['kind'] == 'polylist' and c['via'] == 'create':
                 dist['vcounts_forms'][c.get('vcform')] = dist['vcounts_forms'].get(c.get('vcform'), 0) + 1
             if c['via'] == 'create':
